@@ -74,6 +74,36 @@ theorem spec_unique (orig obs : Maddr) (res : Option Maddr) (h : spec orig obs r
         | nil => simp_all
         | cons rh rt => by_cases hh : isHost h0 <;> by_cases hh' : isHost h' <;> simp_all
 
+
+/-! ## algebraic consequences a caller relies on (re-observation by several peers) -/
+
+/-- translating twice against the same observation changes nothing more (idempotent) -/
+theorem translate_idem (orig obs r : Maddr) (h : translate orig obs = some r) :
+    translate r obs = some r := by
+  obtain ⟨h0, t, h', t', rfl, rfl, _, hh', rfl⟩ := (translate_iff _ _ r).1 h
+  simp [translate, hh']
+
+/-- last observation wins: a translation of a translation is the translation of the original —
+no trace of the intermediate observation survives, in particular none of its tail -/
+theorem translate_compose (orig a b r : Maddr) (h : translate orig a = some r) :
+    translate r b = translate orig b := by
+  obtain ⟨h0, t, h', t', rfl, rfl, hh, hh', rfl⟩ := (translate_iff _ _ r).1 h
+  simp [translate, hh, hh']
+
+/-- translating an address against itself is the identity exactly when it starts with a host -/
+theorem translate_self (a : Maddr) :
+    translate a a = (if (a.head?.map isHost).getD false then some a else none) := by
+  cases a with
+  | nil => rfl
+  | cons h t => cases hh : isHost h <;> simp [translate, hh]
+
+/-- the observed address's own tail (its port, its `/p2p`) never leaks into the result -/
+theorem translate_ignores_observed_tail (orig : Maddr) (h' : Proto) (t1 t2 : Maddr) :
+    translate orig (h' :: t1) = translate orig (h' :: t2) := by
+  cases orig with
+  | nil => rfl
+  | cons h t => simp [translate]
+
 /-- non-vacuity: a concrete translation that does happen, and one that does not -/
 example : translate [.ip4 0x0A000001, .tcp 4001, .p2p [1]] [.dns6 [0x61], .udp 9] =
     some [.dns6 [0x61], .tcp 4001, .p2p [1]] := by decide
@@ -87,3 +117,7 @@ end C13
 #print axioms C13.translate_preserves_tail
 #print axioms C13.spec_translate
 #print axioms C13.spec_unique
+#print axioms C13.translate_idem
+#print axioms C13.translate_compose
+#print axioms C13.translate_self
+#print axioms C13.translate_ignores_observed_tail
